@@ -142,6 +142,16 @@ fn build_ds(ds: &Value) -> InMemDicomObject {
                     .collect(),
             )
             .into(),
+            // long values: a generator rule instead of literal values (see DicomJson.tla)
+            "pat8" => {
+                let (n, a, b) = (j_usize(&vals[0]["n"]), j_usize(&vals[0]["a"]), j_usize(&vals[0]["b"]));
+                PrimitiveValue::U8((0..n).map(|i| ((a * i + b) % 256) as u8).collect()).into()
+            }
+            "pat16" => {
+                let (n, a, b) = (j_usize(&vals[0]["n"]), j_usize(&vals[0]["a"]), j_usize(&vals[0]["b"]));
+                PrimitiveValue::U16((0..n).map(|i| ((a * i + b) % 65536) as u16).collect()).into()
+            }
+            "u8c" => PrimitiveValue::U8(vals.iter().map(|x| j_usize(x) as u8).collect()).into(),
             "items" => DValue::Sequence(DataSetSequence::from(vals.iter().map(build_ds).collect::<Vec<_>>())),
             other => panic!("unknown rep {other}"),
         };
@@ -167,6 +177,8 @@ fn project_ds(obj: &InMemDicomObject) -> Value {
                 PrimitiveValue::Empty => ("empty", vec![]),
                 PrimitiveValue::Strs(s) => ("strs", s.iter().map(|x| Value::from(x.as_str())).collect()),
                 PrimitiveValue::Str(s) => ("str", vec![Value::from(s.as_str())]),
+                // long byte values travel as plain integers
+                PrimitiveValue::U8(v) if v.len() > 256 => ("u8c", v.iter().map(|x| Value::from(*x)).collect()),
                 PrimitiveValue::U8(v) => ("u8", int_vals(v)),
                 PrimitiveValue::U16(v) => ("u16", int_vals(v)),
                 PrimitiveValue::I16(v) => ("i16", int_vals(v)),
@@ -617,7 +629,8 @@ fn rnd_ds(r: &mut Rng, depth: usize, max_el: usize) -> Value {
                     vals = vec![Value::from(rnd_text(r, false))];
                 } else {
                     rep = "strs".into();
-                    vals = fill(&mut |r| Value::from(rnd_text(r, false)), r, m);
+                    // an empty value may stand at any position of a multi-valued element
+                    vals = fill(&mut |r| Value::from(if r.below(7) == 0 { String::new() } else { rnd_text(r, false) }), r, m);
                 }
             }
             "AT" => {
@@ -674,6 +687,13 @@ fn rnd_ds(r: &mut Rng, depth: usize, max_el: usize) -> Value {
             "FL" | "FD" => {
                 rep = if vr == "FL" { "f32" } else { "f64" }.into();
                 vals = fill(&mut |r| if r.below(5) == 0 { known_float(r, false) } else { rnd_short_float(r) }, r, m);
+            }
+            "OB" | "UN" | "OW" | "OF" | "OD" if r.below(12) == 0 => {
+                // a long value around the block sizes of a chunked encoder
+                rep = "u8c".into();
+                let base = *r.pick(&[300usize, 1024, 3072, 4096, 8192, 12288, 16384]);
+                let k = (base as i64 + r.range(-8, 16)).max(264) as usize / 8 * 8 + if vr == "OB" || vr == "UN" { r.below(8) as usize } else { 0 };
+                vals = r.bytes(k).into_iter().map(Value::from).collect();
             }
             "OB" | "UN" => {
                 rep = "u8".into();
